@@ -107,6 +107,13 @@ pub trait EntropySource {
     /// generate a random f64 value.
     fn gen_f64(&mut self) -> f64;
 
+    /// generate a random f64 uniformly distributed in [0, 1).
+    ///
+    /// used for probability checks (e.g. mutation rates): unlike `gen_f64()`, whose
+    /// fuzzer-bytes branch yields arbitrary bit patterns (negative, NaN, huge), the
+    /// result is always a valid probability roll. returns 0.0 if fuzzer bytes exhausted.
+    fn gen_unit_f64(&mut self) -> f64;
+
     /// generate a random value in the given range [min, max).
     fn gen_range(&mut self, min: usize, max: usize) -> usize;
 
@@ -190,6 +197,17 @@ impl<'a> EntropySource for GenerationSource<'a> {
             GenerationSource::Arbitrary(u) => {
                 // arbitrary crate doesn't have float64(), use arbitrary() instead
                 u.arbitrary().unwrap_or(0.0)
+            }
+        }
+    }
+
+    fn gen_unit_f64(&mut self) -> f64 {
+        match self {
+            GenerationSource::Rand(rng) => rng.random(),
+            GenerationSource::Arbitrary(u) => {
+                // 53 random mantissa bits scaled into [0, 1), same construction as rand's f64
+                let bits: u64 = u.arbitrary().unwrap_or(0);
+                (bits >> 11) as f64 / (1u64 << 53) as f64
             }
         }
     }
